@@ -312,6 +312,9 @@ def run_c01_instance(mod, nodes, edges, mode, deadline=None, stale=(), max_follo
     stats = {'states': ex.n_states, 'transitions': ex.n_transitions, 'events': ex.n_events, 'finals': len(ex.finals),
              'obligations': mon.obligations, 'discharged': mon.discharged, 'capped': ex.capped,
              'unsound_finals': len(mon.unsound_finals), 'followups': 0, 'followups_without_wrong_result': 0}
+    if ex.finals:
+        _s = ex.finals[0]
+        stats['sample'] = {'path': [[list(a), r] for a, r in _s.path()], 'path_condition': [[repr(a), b] for a, b in sorted(_s.pc.items(), key=repr)][:40]}
     viols = []
 
     def add(what, kind, st1, st2, u2, model, pcset, j):
